@@ -177,7 +177,7 @@ FromLinearRun(e, first, lst, code) ==
   /\ last' = "from_linear_run" /\ UNCHANGED prev
 (* IntoLinear<f32, _> and IntoLinear<f64, _>::into_linear of code k: both values (Dy) are on the curve and encode
    back to k.  When the f32 value is the f64 value rounded to f32 it inherits the verdict of the f64 value (its
-   distance from it, 2^-25 relative, is far inside the f32 tolerance), which saves a second pair of power comparisons. *)
+   distance from it, 2^-25 relative, is far inside the f32 tolerance), which saves a second evaluation of the powers. *)
 DecodedOK(e, k, x32, x64) ==
   /\ x32[1] >= 0 /\ x64[1] >= 0
   /\ DecodeOK(e, "f64", MaxCode(e), k, x64)
